@@ -10,7 +10,7 @@
 (* Only *valid* words are received symbols; a not-valid word is no symbol  *)
 (* at all (it neither extends nor breaks a run of idle symbols).           *)
 (*                                                                         *)
-(* Grain: one step = one "ss" clock cycle; record [en, iw, cpl].           *)
+(* Grain: one step = one "ss" clock cycle; record [en, iw, cpl, rst].           *)
 (*  Env : enable, any word stream.                                         *)
 (*  Ref : sent (cycles enabled so far), run (current run of valid idle     *)
 (*        words), seen (a run of 2 was reached while enabled).             *)
@@ -38,6 +38,7 @@ HsFailing(h, r) ==
     ELSE "ok"
 
 HsNext(h, r) ==
+    IF r.rst THEN HsInit ELSE        \* clock-domain reset: everything counted so far is forgotten
     [sent |-> IF r.en THEN Min(h.sent + 1, TxCyclesNeeded) ELSE 0,
      run  |-> RunWith(h, r.iw),
      seen |-> r.en /\ SeenWith(h, r)]
